@@ -461,8 +461,12 @@ impl TestCaseConfig {
         if !self.environment.is_empty() {
             let mut envvars = vec![];
             for (key, value) in self.environment.iter() {
-                // TODO: this will bereak break if the value contains double quotes => use `quote-string` crate?
-                envvars.push(format!("{}: \"{}\"", key, value))
+                // a JSON string is a valid double quoted YAML scalar
+                envvars.push(format!(
+                    "{}: {}",
+                    key,
+                    serde_json::to_string(value).unwrap_or_else(|_| format!("\"{}\"", value))
+                ))
             }
             output.push(format!("environment: {{{}}}", envvars.join(", ")));
         }
